@@ -15,7 +15,7 @@
 From Coq Require Import List ZArith Bool Arith Lia.
 Import ListNotations.
 Require Import MayV.Rt.AtomicDur MayV.Base.BlockerSpec MayV.Rt.ParkModel MayV.Rt.ParkTac
-               MayV.Rt.ParkInv1 MayV.Rt.ParkInv2 MayV.Rt.ParkInv3 MayV.Rt.ParkInv4.
+               MayV.Rt.ParkInv1 MayV.Rt.ParkInv2 MayV.Rt.ParkInv3 MayV.Rt.ParkInv4 MayV.Rt.ParkInv5.
 Open Scope Z_scope.
 
 (* ------------------------------------------------------------------------------------------------ *)
@@ -103,4 +103,285 @@ Proof.
   all: try solve [split_all; discriminate].
   - destruct (kdur s); [discriminate | exfalso; apply Hn; reflexivity].
   - destruct (Ka eq_refl) as (d & t & Hd & _). rewrite Hd. discriminate.
+Qed.
+
+(* all the invariants of a reachable state *)
+Lemma invs s : ReachF s -> Inv1 s /\ Inv2 s /\ Inv3 s /\ Inv4 s /\ Inv5 s.
+Proof. intros R. destruct (inv4_reach s R) as (I1 & I2 & I3 & I4). pose proof (inv5_reach s R). auto. Qed.
+
+(* ------------------------------------------------------------------------------------------------ *)
+(* (ii) no lost wake-up                                                                             *)
+(* ------------------------------------------------------------------------------------------------ *)
+
+(* the kernel half (subscribe) is between its wait_co.store and its re-check of the token *)
+Definition krecheck (k : kpc) : bool := match k with KChk | KStake | KSload | KFtake => true | _ => false end.
+
+(* THE no-lost-wake-up theorem: whenever the coroutine sits in the wait_co slot and the token is set, either
+   the kernel half has not yet done its re-check, or an unparker is between its state.swap(true) and its
+   wait_co.take(). *)
+Theorem no_lost_wakeup s : ReachF s -> slot s = true -> pstate s = true ->
+  krecheck (kp s) = true \/ exists i b, un s i = NTake b.
+Proof.
+  intros R Hs Hp. destruct (invs s R) as (_ & _ & _ & I4 & _).
+  pose proof (w_tok s I4 Hs Hp) as W. unfold un_taking in W.
+  destruct (kp s); cbn; auto.
+Qed.
+
+(* ... that unparker's next access takes the coroutine out of the slot, and he becomes the holder *)
+Theorem unparker_takes s i b : un s i = NTake b -> slot s = true ->
+  exists s', stepF s (AUnTake i) = Some s' /\ slot s' = false /\ un s' i = NHold /\ holder s' = HUn i.
+Proof.
+  intros Hu Hs. unfold stepF; cbn [step]. rewrite Hu, Hs. eexists. split; [reflexivity|].
+  cbn. rewrite upd_same. auto.
+Qed.
+
+(* ... and the kernel half, within its next three accesses, takes the coroutine back itself (unless
+   somebody else is faster, which is just as good) and then resumes it *)
+Theorem kernel_self_wake s : krecheck (kp s) = true -> slot s = true -> pstate s = true ->
+  exists n s', (n <= 3)%nat /\ run true true s (repeat AK n) = Some s' /\ slot s' = false /\ kholds (kp s') = true.
+Proof.
+  intros Hk Hs Hp. destruct (kp s) eqn:E; try discriminate Hk.
+  - (* KChk *)
+    destruct (kdl s) as [t|] eqn:D; [destruct (t <=? now s) eqn:L|].
+    + exists 2%nat. eexists. split; [lia|]. cbn [repeat run step]. unfold kstep. rewrite E, D, L. cbn. rewrite Hs. cbn. auto.
+    + exists 3%nat. eexists. split; [lia|]. cbn [repeat run step]. unfold kstep. rewrite E, D, L. cbn. rewrite Hp. cbn. rewrite Hs. cbn. auto.
+    + exists 3%nat. eexists. split; [lia|]. cbn [repeat run step]. unfold kstep. rewrite E, D. cbn. rewrite Hp. cbn. rewrite Hs. cbn. auto.
+  - exists 1%nat. eexists. split; [lia|]. cbn [repeat run step]. unfold kstep. rewrite E, Hs. cbn. auto.
+  - exists 2%nat. eexists. split; [lia|]. cbn [repeat run step]. unfold kstep. rewrite E, Hp. cbn. rewrite Hs. cbn. auto.
+  - exists 1%nat. eexists. split; [lia|]. cbn [repeat run step]. unfold kstep. rewrite E, Hs. cbn. auto.
+Qed.
+
+(* cancel: the coroutine is in the slot and its cancel bit is set.  PARTIAL: only for a Park that no
+   kernel half of an EARLIER Blocker of the same coroutine, still in flight, has registered over
+   ([tainted = false]; see cancel_lost_after_stale_set_co in ParkRefute.v for what happens otherwise).
+   Then the kernel half has not yet passed its own check of the cancel bit, or a canceller holds the
+   slot (CTake), or the slot is still registered in Cancel.co and a canceller is about to take it from there. *)
+Theorem no_lost_cancel_partial s : ReachF s -> slot s = true -> cbit s = true -> tainted s = false ->
+  match kp s with
+  | KChk | KStake | KSload | KFtake | KSetco | KC3 => True
+  | KCchk | KC1 | KC2 => cco s = CThis \/ exists i, cn s i = CTake
+  | _ => (exists i, cn s i = CTake) \/ (cco s = CThis /\ exists i, cn s i = CTakeCo) end.
+Proof.
+  intros R Hs Hc Ht. destruct (invs s R) as (_ & _ & _ & I4 & _). exact (w_can s I4 Hs Hc Ht).
+Qed.
+
+(* registration: a suspended coroutine whose kernel half is through is registered with its Cancel
+   (or a canceller has just taken the registration and is about to take the coroutine) *)
+Theorem suspended_is_registered_partial s : ReachF s -> slot s = true -> tainted s = false ->
+  match kp s with
+  | KCchk | KC1 | KC2 | KGoff | KIdle => cco s = CThis \/ exists i, cn s i = CTake
+  | _ => True end.
+Proof.
+  intros R Hs Ht. destruct (invs s R) as (_ & _ & _ & I4 & _). exact (w_reg s I4 Hs Ht).
+Qed.
+
+(* timeout: the coroutine is in the slot in a timed park (the armed duration is not None: with the
+   repaired AtomicDuration that is every park_timeout(Some d)).  Then its timer entry [i] (the handle) is
+   armed or popped-and-about-to-fire, or the kernel half is doing the time-out itself. *)
+Theorem no_lost_timeout s : ReachF s -> slot s = true -> armed_of (ud s) <> None ->
+  exists i, hnd s = Some i /\
+    ((tm s i = TmArmed \/ tm s i = TmFired) \/ kp s = KStake \/ (kp s = KChk /\ exists t, kdl s = Some t /\ t <= now s)).
+Proof.
+  intros R Hs Ha. destruct (invs s R) as (_ & _ & _ & I4 & _).
+  pose proof (w_timed s I4 Hs Ha) as N. destruct (hnd s) as [i|] eqn:E; [|congruence].
+  exists i. split; [reflexivity|]. exact (w_dead s I4 Hs i E).
+Qed.
+
+Lemma armed_of_some d : 0 <= d -> armed_of (Some d) <> None.
+Proof. intros H. destruct (some_is_never_none d H) as (t & E). unfold armed_of. unfold armed in E. rewrite E. discriminate. Qed.
+
+(* the timer entry of the call is never earlier than the call's own deadline (call time + armed duration) *)
+Theorem timer_not_before_call_deadline s i : ReachF s -> hnd s = Some i ->
+  exists c, call_deadline s = Some c /\ c <= tdl s i.
+Proof. intros R H. destruct (invs s R) as (_ & I2 & _). exact (h_dl s I2 i H). Qed.
+
+(* ---- quiescence form ---- *)
+
+Theorem quiescent_no_token s : ReachF s -> Quiescent s -> ~ (slot s = true /\ pstate s = true).
+Proof.
+  intros R (_ & _ & Hk & _ & Hu & _) (Hs & Hp).
+  destruct (no_lost_wakeup s R Hs Hp) as [K|(i & b & U)].
+  - rewrite Hk in K. discriminate.
+  - rewrite Hu in U. discriminate.
+Qed.
+
+Theorem quiescent_no_cancel_partial s : ReachF s -> Quiescent s ->
+  ~ (slot s = true /\ cbit s = true /\ tainted s = false).
+Proof.
+  intros R (_ & _ & Hk & _ & _ & Hc & _) (Hs & Hb & Ht).
+  pose proof (no_lost_cancel_partial s R Hs Hb Ht) as W. rewrite Hk in W.
+  destruct W as [(i & C)|(_ & i & C)]; rewrite Hc in C; discriminate.
+Qed.
+
+(* in a quiescent state a coroutine suspended in a timed park still has its timer armed, and that timer's
+   deadline lies in the future: nobody sleeps past an armed deadline *)
+Theorem quiescent_no_deadline s : ReachF s -> Quiescent s -> slot s = true -> armed_of (ud s) <> None ->
+  exists i, hnd s = Some i /\ tm s i = TmArmed /\ now s < tdl s i.
+Proof.
+  intros R (_ & _ & Hk & _ & _ & _ & Hq) Hs Ha.
+  destruct (no_lost_timeout s R Hs Ha) as (i & Hh & W). exists i. split; [exact Hh|].
+  specialize (Hq i). rewrite Hk in W.
+  destruct W as [[W|W]|[W|(W & _)]]; try discriminate W; rewrite W in Hq; [auto | contradiction].
+Qed.
+
+(* Quiescent is the right notion: in a state with the coroutine in the slot it holds exactly when no
+   internal transition is enabled *)
+Theorem quiescent_stuck s : Quiescent s -> forall a, internal a = true -> stepF s a = None.
+Proof.
+  intros (Hr & Hq & Hk & Ho & Hu & Hc & Ht) a Ia. unfold stepF.
+  destruct a; try discriminate Ia; cbn [step].
+  - unfold ustep. rewrite Hr. reflexivity.
+  - unfold kstep. rewrite Hk. reflexivity.
+  - rewrite Hu. reflexivity.
+  - rewrite Hu. reflexivity.
+  - rewrite Hu. reflexivity.
+  - rewrite Hc. reflexivity.
+  - rewrite Hc. reflexivity.
+  - rewrite Hc. reflexivity.
+  - specialize (Ht i). destruct (tm s i); try reflexivity; apply Z.leb_gt in Ht; rewrite Ht; reflexivity.
+  - specialize (Ht i). destruct (tm s i); try reflexivity; contradiction.
+  - specialize (Ht i). destruct (tm s i); try reflexivity; contradiction.
+  - rewrite Hq. reflexivity.
+  - rewrite Ho. reflexivity.
+  - rewrite Ho. reflexivity.
+Qed.
+
+Theorem stuck_quiescent s : ReachF s -> slot s = true ->
+  (forall a, internal a = true -> stepF s a = None) -> Quiescent s.
+Proof.
+  intros R Hs St. destruct (invs s R) as (I1 & I2 & _ & I4 & I5).
+  assert (Hup : up s = USusp) by (apply (i_susp s I1); auto).
+  assert (Nd : up s <> UDead) by congruence.
+  destruct (exactly_one_place s R Nd) as [P|[P|[P|[P|P]]]]; destruct P as (Hr & Hs' & Hq & Hkh & Hh); try congruence.
+  assert (Hk : kp s = KIdle).
+  { destruct (kp s) eqn:E; try reflexivity; exfalso.
+    all: assert (En : enabled s AK) by (apply kernel_enabled; auto; [congruence | intros X; apply (k_now s I5); congruence]).
+    all: destruct En as (s' & En); rewrite (St AK eq_refl) in En; discriminate. }
+  unfold Quiescent. repeat split; auto.
+  - destruct (oldk s) eqn:E; [reflexivity|]. pose proof (St AOldKDone eq_refl) as X. unfold stepF in X; cbn [step] in X. rewrite E in X. discriminate.
+  - intros i. destruct (un s i) eqn:E; [reflexivity| |].
+    + pose proof (St (AUnTake i) eq_refl) as X. unfold stepF in X; cbn [step] in X. rewrite E, Hs in X. discriminate.
+    + pose proof (St (AUnSched i) eq_refl) as X. unfold stepF in X; cbn [step] in X. rewrite E in X. discriminate.
+  - intros i. destruct (cn s i) eqn:E; [reflexivity| | | |].
+    + pose proof (St (ACnTakeCo i) eq_refl) as X. unfold stepF in X; cbn [step] in X. rewrite E in X. destruct (cco s); discriminate.
+    + pose proof (St (ACnTake i) eq_refl) as X. unfold stepF in X; cbn [step] in X. rewrite E, Hs in X. discriminate.
+    + pose proof (St (ACnTake i) eq_refl) as X. unfold stepF in X; cbn [step] in X. rewrite E in X. discriminate.
+    + pose proof (St (ACnSched i) eq_refl) as X. unfold stepF in X; cbn [step] in X. rewrite E in X. discriminate.
+  - intros i. destruct (tm s i) eqn:E; auto.
+    + pose proof (St (ATFire i) eq_refl) as X. unfold stepF in X; cbn [step] in X. rewrite E in X.
+      destruct (tdl s i <=? now s) eqn:L; [discriminate | apply Z.leb_gt; exact L].
+    + pose proof (St (ATFire i) eq_refl) as X. unfold stepF in X; cbn [step] in X. rewrite E in X.
+      destruct (tdl s i <=? now s) eqn:L; [discriminate | apply Z.leb_gt; exact L].
+    + pose proof (St (ATTake i) eq_refl) as X. unfold stepF in X; cbn [step] in X. rewrite E, Hs in X. discriminate.
+    + pose proof (St (ATRun i) eq_refl) as X. unfold stepF in X; cbn [step] in X. rewrite E in X. discriminate.
+Qed.
+
+(* ---- progress form: inside a park call the implementation can always move, except when the coroutine
+   rests in the slot; there it can move whenever a reason to wake it exists ---- *)
+
+Theorem only_the_slot_rests s : ReachF s -> in_park (up s) = true -> slot s = false -> can_move s.
+Proof.
+  intros R Hp Hs. destruct (invs s R) as (I1 & I2 & _ & I4 & I5).
+  assert (Nd : up s <> UDead) by (intros X; rewrite X in Hp; discriminate).
+  destruct (exactly_one_place s R Nd) as [P|[P|[P|[P|P]]]]; destruct P as (Hr & Hs' & Hq & Hkh & Hh); try congruence.
+  - exists AU. split; [reflexivity|]. apply user_enabled; auto.
+  - exists AResume. split; [reflexivity|]. apply some_ex. unfold stepF; cbn [step]. rewrite Hq, Hr.
+    pose proof (i_run s I1) as Ru. rewrite Hr in Ru.
+    destruct (up s); cbn in Hp, Ru; try discriminate.
+  - exists AK. split; [reflexivity|]. apply kernel_enabled; auto.
+    + intros X. rewrite X in Hkh. discriminate.
+    + intros X. apply (k_now s I5 X).
+  - pose proof (w_holder s I4) as W. destruct (holder s) as [|i|i|i] eqn:E; [discriminate Hh| | |].
+    + exists (AUnSched i). split; [reflexivity|]. apply some_ex. unfold stepF; cbn [step]. rewrite W. discriminate.
+    + exists (ACnSched i). split; [reflexivity|]. apply some_ex. unfold stepF; cbn [step]. rewrite W. discriminate.
+    + exists (ATRun i). split; [reflexivity|]. apply some_ex. unfold stepF; cbn [step]. rewrite W. discriminate.
+Qed.
+
+(* the property's "that next park returns instead of blocking", as a safety statement: wherever the
+   call is - first check, waiting for the kernel half, yielding, in the slot, taken, queued, resumed - as
+   long as the token is set some transition of the implementation is enabled (in the slot: one that takes
+   the coroutine, by no_lost_wakeup) *)
+Theorem park_with_token_not_stuck s : ReachF s -> pstate s = true -> in_park (up s) = true -> can_move s.
+Proof.
+  intros R Ht Hp. destruct (slot s) eqn:Hs; [|apply only_the_slot_rests; auto].
+  destruct (invs s R) as (I1 & I2 & _ & _ & I5).
+  destruct (no_lost_wakeup s R Hs Ht) as [K|(i & b & U)].
+  - exists AK. split; [reflexivity|]. apply kernel_enabled; auto.
+    + intros X. rewrite X in K. discriminate.
+    + intros X. rewrite X in K. discriminate.
+  - exists (AUnTake i). split; [reflexivity|]. destruct (unparker_takes s i b U Hs) as (s' & E & _). exists s'. exact E.
+Qed.
+
+Theorem park_cancelled_not_stuck_partial s : ReachF s -> cbit s = true -> tainted s = false ->
+  in_park (up s) = true -> can_move s.
+Proof.
+  intros R Hb Ht Hp. destruct (slot s) eqn:Hs; [|apply only_the_slot_rests; auto].
+  destruct (invs s R) as (I1 & I2 & _ & _ & I5).
+  pose proof (no_lost_cancel_partial s R Hs Hb Ht) as W.
+  assert (KE : kp s <> KIdle -> can_move s).
+  { intros N. exists AK. split; [reflexivity|]. apply kernel_enabled; auto. intros X. apply (k_now s I5 X). }
+  assert (C1 : (exists i, cn s i = CTake) -> can_move s).
+  { intros (i & C). exists (ACnTake i). split; [reflexivity|]. apply some_ex. unfold stepF; cbn [step]. rewrite C, Hs. discriminate. }
+  assert (C2 : (exists i, cn s i = CTakeCo) -> can_move s).
+  { intros (i & C). exists (ACnTakeCo i). split; [reflexivity|]. apply some_ex. unfold stepF; cbn [step]. rewrite C. destruct (cco s); discriminate. }
+  destruct (kp s) eqn:E; try (apply KE; discriminate).
+  destruct W as [W|(_ & W)]; auto.
+Qed.
+
+(* the deadline of the timer entry of the call has passed while the coroutine is in the slot: the timer
+   thread can pop the entry (ATFire), or its callback can take the coroutine, or the kernel half is doing
+   the time-out itself *)
+Theorem park_past_deadline_not_stuck s i : ReachF s -> slot s = true -> hnd s = Some i -> tdl s i <= now s ->
+  can_move s.
+Proof.
+  intros R Hs Hh Hd. destruct (invs s R) as (I1 & I2 & _ & I4 & I5).
+  assert (KE : kp s <> KIdle -> can_move s).
+  { intros N. exists AK. split; [reflexivity|]. apply kernel_enabled; auto. intros X. apply (k_now s I5 X). }
+  destruct (w_dead s I4 Hs i Hh) as [[W|W]|[W|(W & _)]].
+  - exists (ATFire i). split; [reflexivity|]. apply some_ex. unfold stepF; cbn [step]. rewrite W.
+    apply Z.leb_le in Hd. rewrite Hd. discriminate.
+  - exists (ATTake i). split; [reflexivity|]. apply some_ex. unfold stepF; cbn [step]. rewrite W, Hs. discriminate.
+  - apply KE. congruence.
+  - apply KE. congruence.
+Qed.
+
+(* ------------------------------------------------------------------------------------------------ *)
+(* (iii) unpark before park                                                                         *)
+(* ------------------------------------------------------------------------------------------------ *)
+
+(* [tok0]: the token was set when the current / latest call started.  Such a call never reaches the
+   suspending part of park_timeout ([susp] is set by the yield): it is at the first check_park, or back. *)
+Theorem token_first_never_suspends s : ReachF s -> tok0 s = true ->
+  susp s = false /\
+  (in_park (up s) = true -> (up s = UCp1Load /\ pstate s = true) \/ up s = UCp1Store).
+Proof.
+  intros R H. destruct (invs s R) as (_ & _ & I3 & _ & _).
+  destruct (t0 s I3 H) as (A & B). split; [exact A|]. intros P.
+  destruct (up s); cbn in P; try discriminate; auto; try (rewrite P in B; discriminate B).
+Qed.
+
+(* ... it returns Ok within two accesses of its own (state.load, state.store(false)), whatever the others do *)
+Theorem token_first_returns_ok s : ReachF s -> tok0 s = true -> in_park (up s) = true ->
+  exists n s', (n <= 2)%nat /\ run true true s (repeat AU n) = Some s' /\
+               up s' = UIdle /\ lastv s' = Some VOk /\ susp s' = false /\ pstate s' = false.
+Proof.
+  intros R H P. destruct (invs s R) as (I1 & _ & I3 & _ & _).
+  destruct (token_first_never_suspends s R H) as (Su & W). specialize (W P).
+  pose proof (i_run s I1) as Ru. pose proof (store_tok s I3) as St.
+  destruct W as [(E & T)|E]; rewrite E in *; cbn in Ru.
+  - exists 2%nat, (clear_tok (s |> set_up UCp1Store) |> set_lastv (Some VOk) |> set_up UIdle).
+    split; [lia|]. split.
+    + cbn [repeat run step]. unfold ustep. rewrite Ru, E, T. cbn. rewrite Ru. reflexivity.
+    + unfold clear_tok. cbn. rewrite T. cbn. auto.
+  - exists 1%nat, (clear_tok s |> set_lastv (Some VOk) |> set_up UIdle).
+    split; [lia|]. split.
+    + cbn [repeat run step]. unfold ustep. rewrite Ru, E. cbn. reflexivity.
+    + unfold clear_tok. rewrite St. cbn. auto.
+Qed.
+
+(* ... and once it is back its verdict was Ok *)
+Theorem token_first_verdict s : ReachF s -> tok0 s = true -> in_park (up s) = false -> lastv s = Some VOk.
+Proof.
+  intros R H P. destruct (invs s R) as (_ & _ & _ & _ & I5). pose proof (t0_ok s I5 H) as W.
+  destruct (up s); cbn in P; try discriminate; exact W.
 Qed.
